@@ -75,7 +75,8 @@ def tokens(method, target, headers, rid):
     return {"id": rid, "method": b(method), "path": b(path), "query": q, "headers": [[b(n), b(v)] for n, v in headers]}
 
 
-def classify(method, target, headers, body, mac_hex):
+def classify(method, target, headers, body, mac_hex, key=None):
+    key = key or KEY
     """which (defective) canonicalisation explains a MAC that no accepted canonical string explains"""
     path, _, query = target.partition("?")
     pairs = [(p.partition("=")[0].lower(), p.partition("=")[2]) for p in (query.split("&") if query else []) if p.partition("=")[0]]
@@ -96,7 +97,7 @@ def classify(method, target, headers, body, mac_hex):
     for name, ps, hh in (("query-pair-dropped", list(dedup.values()), hs),
                          ("repeated-header-last-value-only", pairs, list(last.items())),
                          ("query-pair-dropped+repeated-header-last-value-only", list(dedup.values()), list(last.items()))):
-        if canon.mac(KEY, sts(ps, hh)) == mac_hex.lower():
+        if canon.mac(key, sts(ps, hh)) == mac_hex.lower():
             return name
     return "unexplained"
 
@@ -114,6 +115,8 @@ def run(c):
     steps = [{"op": "set_key", "guid": GUID, "key": KEY}]
     reqs = {}
     conn = None
+    cur = (GUID, KEY)
+    rotations = 0
     for i in range(n):
         rid = "q%d" % i
         exempt = rnd.random() < 0.05
@@ -124,7 +127,13 @@ def run(c):
             q = rand_query(rnd)
             target = rnd.choice(["/machine", "/machine/a8016240/49c242ba%2Dc18a.%5Fvm2", "/Metadata/Instance", "/x"]) + ("?" + q if q else "")
         blen = rnd.choice([0, 0, 1, 33, 200, 4096, 102400]) if method != "GET" else 0
-        if conn is None or rnd.random() < 0.3:
+        if i and i % (n // 7) == 0:
+            # the key keeper latches a new key while the keep-alive connection stays open: from here on every request,
+            # on old and new connections alike, is signed under the key latched when it is relayed
+            cur = ("%08x-1111-2222-3333-%012x" % (i, i), "%064X" % rnd.getrandbits(256))
+            steps.append({"op": "set_key", "guid": cur[0], "key": cur[1]})
+            rotations += 1
+        elif conn is None or rnd.random() < 0.3:
             if conn:
                 steps.append({"op": "close", "conn": conn})
             conn = "cq%d" % i
@@ -132,7 +141,20 @@ def run(c):
         hs = rand_headers(rnd)
         steps.append({"op": "request", "conn": conn, "id": rid, "method": method, "target": target, "headers": hs,
                       "body": {"seed": i, "len": blen}, "framing": "cl" if blen and rnd.random() < 0.7 else ("chunked" if blen else "none")})
-        reqs[rid] = {"method": method, "target": target, "blen": blen, "seed": i, "exempt": exempt}
+        reqs[rid] = {"method": method, "target": target, "blen": blen, "seed": i, "exempt": exempt, "key": cur}
+    c.extra["key_rotations_on_open_connections"] = rotations
+    # slow uploads: the head arrives, the body more than a second later (anything stamped twice differs by then)
+    for i in range(3 if not thorough else 25):
+        rid = "slow%d" % i
+        conn = "cslow%d" % i
+        blen = rnd.choice([33, 4096, 65536])
+        target = "/machine?comp=slow&n=%d" % i
+        steps.append({"op": "connect", "conn": conn, "attr": {"uid": 0, "admin": 1, "dip": "168.63.129.16", "dport": 80}})
+        steps.append({"op": "request", "conn": conn, "id": rid, "method": "POST", "target": target, "headers": rand_headers(rnd),
+                      "body": {"seed": 7000 + i, "len": blen}, "framing": rnd.choice(["cl", "chunked"]), "body_delay_ms": 1100})
+        steps.append({"op": "close", "conn": conn})
+        reqs[rid] = {"method": "POST", "target": target, "blen": blen, "seed": 7000 + i, "exempt": False, "key": cur}
+    c.extra["slow_uploads"] = 3 if not thorough else 25
     # own calls through the real clients
     for i, kind in enumerate(["goalstate", "sharedconfig", "imds"]):
         steps.append({"op": "own_call", "kind": kind, "tag": "own%d" % i})
@@ -171,10 +193,10 @@ def run(c):
             raise util.ToolError("build_request failed: %s" % r)
         rid = "b%d" % i
         rows.append(tokens(r["method"], r["target"], r["headers"], rid))
-        recv[rid] = {"method": r["method"], "target": r["target"], "headers": r["headers"],
+        recv[rid] = {"method": r["method"], "target": r["target"], "headers": r["headers"], "key": (GUID, KEY),
                      "body": bytes.fromhex(cmd["body"]) if cmd["body"] else b"", "parts_route": r["canon_parts_route"]}
     # phase 2: TLC computes the canonical strings
-    path = os.path.join(util.BUILD, "traces", "c04.ndjson")
+    path = os.path.join(util.TRACES, "c04.ndjson")
     util.write_ndjson(path, rows)
     res = c.tlc("CanonTrace", "CanonTrace.cfg", subdir="trace", workers=1, coverage=False, dfs_queue=True, timeout=1500,
                 env={"TRACE": path}, heap="4g", expect_ok=False)
@@ -196,6 +218,7 @@ def run(c):
             body, exempt = e["body"], False
         else:
             body, exempt = b"", False
+        guid, key = reqs[rid]["key"] if rid in reqs else e.get("key", cur)   # own calls: the key latched last
         hs = e["headers"]
         auths = [v for n, v in hs if n.lower() == AUTH]
         if exempt:
@@ -206,7 +229,7 @@ def run(c):
             kinds.setdefault("authorization-header-count-%d" % len(auths), []).append((rid, e))
             continue
         a = canon.parse_auth(auths[0])
-        if not a or a["scheme"] != "Azure-HMAC-SHA256" or a["guid"] != GUID:
+        if not a or a["scheme"] != "Azure-HMAC-SHA256" or a["guid"] != guid:
             kinds.setdefault("bad-scheme-or-key-id", []).append((rid, e))
             continue
         nsigned += 1
@@ -215,12 +238,12 @@ def run(c):
         # second implementation must agree with TLC on the (key, value) order
         if canon.string_to_sign(e["method"], e["target"], [(n, v) for n, v in hs], body) != cand[0]:
             raise util.ToolError("canon.py and Canon.tla disagree on %s" % rid)
-        if not any(canon.mac(KEY, s) == a["mac"].lower() for s in cand):
-            kinds.setdefault(classify(e["method"], e["target"], hs, body, a["mac"]), []).append((rid, e))
+        if not any(canon.mac(key, s) == a["mac"].lower() for s in cand):
+            kinds.setdefault(classify(e["method"], e["target"], hs, body, a["mac"], key), []).append((rid, e))
             continue
         if "parts_route" in e:
             # RoutesAgree: the parts route over the built request yields the same MAC
-            if canon.mac(KEY, bytes.fromhex(e["parts_route"])) != a["mac"].lower():
+            if canon.mac(key, bytes.fromhex(e["parts_route"])) != a["mac"].lower():
                 kinds.setdefault("routes-disagree", []).append((rid, e))
         c.distinct.add(rid)
     c.extra["signed_requests_verified"] = nsigned
